@@ -68,6 +68,16 @@ Theorem C19_plsr_fit_transform_train : forall (F : Type) (Op : fops F)
 Proof. exact @fit_transform_train. Qed.
 Print Assumptions C19_plsr_fit_transform_train.
 
+(* ... and transform(X_train, Y_train) returns the fitted Y scores as its second component (commutative ring; the
+   only contract on the least-squares solver: it returns at most one coefficient per column) *)
+Theorem C19_plsr_fit_transform_Y_train : forall (F : Type) (Op : fops F), is_ring Op ->
+  forall (inner : tensor F -> tensor F -> list (tensor F) * tensor F) (lstsq : list (list F) -> list F -> list F),
+  (forall Tc u, length (lstsq Tc u) <= length Tc) ->
+  forall (ncomp : nat) (X Y : tensor F),
+  fit_transform_Y Op (fit Op inner lstsq ncomp X Y) X Y = map (c_yscore (F:=F)) (comps (fit Op inner lstsq ncomp X Y)).
+Proof. exact @fit_transform_Y_train. Qed.
+Print Assumptions C19_plsr_fit_transform_Y_train.
+
 (* mean-centring lemma (ring part) and permutation equivariance of centring *)
 Theorem C19_center_shift : forall (F : Type) (Op : fops F), is_ring Op ->
   forall (X m c : tensor F), shape m = sshape X ->
